@@ -1,4 +1,5 @@
 import Qx.Xml.Tree
+import Qx.Xml.Codec.Scalar
 /-!
 Tier C of C01/C02: schema-driven codecs.
 
@@ -72,6 +73,28 @@ def lenientNat (bits : Nat) (s : Str) : Nat :=
   | some n => n
   | none => 0
 
+/-- sign and rest: one optional `+`, `-` or U+2212 (`QLocaleData::digitToCLocale` maps the latter to `-`) -/
+def dropSign : Str → Bool × Str
+  | [] => (false, [])
+  | c :: r => if c = '+' then (false, r) else if c = '-' ∨ c.toNat = 0x2212 then (true, r) else (false, c :: r)
+
+/-- `QString::toInt(&ok)` and friends: blanks around, one optional sign, ASCII digits; the value must
+lie in `[-2^bits, 2^bits)`.  Result: (negative, magnitude). -/
+def strictInt (bits : Nat) (s : Str) : Option (Bool × Nat) :=
+  let r := dropSign (trimQt s)
+  if r.2.isEmpty then none
+  else match parseDigits r.2 with
+    | some m =>
+      if r.1 then (if m ≤ 2 ^ bits then some (true, m) else none)
+      else (if m < 2 ^ bits then some (false, m) else none)
+    | none => none
+
+/-- a signed C++ integer used as "count or unset": every negative value means unset (the writers test
+`>= 0`), so it is carried as `Option Nat`; `garbage` is what an unparsable string yields -/
+def countOfSigned (garbage : Option Nat) : Option (Bool × Nat) → Option Nat
+  | some (neg, m) => if neg && m != 0 then none else some m
+  | none => garbage
+
 /-! ## Base64 as Qt does it
 
 `QByteArray::toBase64()` (standard alphabet, `=` padding) and `QByteArray::fromBase64Encoding(…)`
@@ -141,12 +164,22 @@ inductive FTy
   | nat (bits : Nat)
   /-- `std::optional<uintN_t>` read with `parseInt<uintN_t>` (garbage, out of range, absent ⇒ nullopt) -/
   | optNat (bits : Nat)
+  /-- `int` meaning "count, or unset when negative", read with `toInt(&ok)`, `!ok ⇒ -1`; written when `>= 0` -/
+  | optInt (bits : Nat)
+  /-- the same read with `toInt()` and no `ok` test: an unparsable or absent string yields 0, not "unset".
+  (Not a well-formed type: "unset" does not survive a round trip.) -/
+  | optIntZ (bits : Nat)
   /-- `bool`: true iff the string is one of `trues`; written as the first of them -/
   | flag (trues : List Str)
   /-- `std::optional<Enum>` via `enumFromString`: index into `names`, unknown ⇒ nullopt -/
   | enum (names : List Str)
   /-- `Enum` via `enumFromString(…).value_or(names[dflt])`: unknown or absent ⇒ the default member -/
   | enumD (names : List Str) (dflt : Nat)
+  /-- `QDateTime` as XEP-0082 text (`QXmppUtils::datetimeFromString` / `datetimeToString`, modelled by tier B in
+  `Qx/Xml/Codec/Scalar.lean`).  The value is the UTC date-time, or nothing for an invalid one; a date-time
+  that `datetimeToString` cannot print (year outside 1..9999) counts as nothing: the class writes an empty
+  string for it -/
+  | dateTime
   /-- `QByteArray` carried as Base64 text (`parseBase64` / `toBase64`); the value is the Latin-1
   string of the bytes -/
   | b64
@@ -159,6 +192,7 @@ inductive Val
   | nat (n : Nat)
   | flag (b : Bool)
   | opt (i : Option Nat)
+  | dt (d : Option Scalar.Dt)
   | absent
   | record (vs : List Val)
   | list (items : List Val)
@@ -170,20 +204,26 @@ def FTy.parse : FTy → Str → Val
   | .str, s => .str s
   | .nat b, s => .nat (lenientNat b s)
   | .optNat b, s => .opt (strictNat b s)
+  | .optInt b, s => .opt (countOfSigned none (strictInt b s))
+  | .optIntZ b, s => .opt (countOfSigned (some 0) (strictInt b s))
   | .flag ts, s => .flag (ts.contains s)
   | .enum ns, s => .opt (idxOf s ns)
   | .enumD ns d, s => .nat (match idxOf s ns with | some i => i | none => d)
   | .b64, s => .str (strOfBytes (b64dec s))
+  | .dateTime, s => .dt ((Scalar.dtParseCode s).filter fun d => decide (Scalar.ValidDt d))
 
 /-- value → string as the class prints it; `[]` for values that are never printed -/
 def FTy.show : FTy → Val → Str
   | .str, .str s => s
   | .nat _, .nat n => natToStr n
   | .optNat _, .opt (some n) => natToStr n
+  | .optInt _, .opt (some n) => natToStr n
+  | .optIntZ _, .opt (some n) => natToStr n
   | .flag ts, .flag true => ts.headD []
   | .enum ns, .opt (some i) => nth ns i
   | .enumD ns _, .nat i => nth ns i
   | .b64, .str s => b64enc (bytesOf s)
+  | .dateTime, .dt (some d) => Scalar.dtToStr d
   | _, _ => []
 
 /-- the value for which an omitting writer (`writeOptionalXmlAttribute`, `if (x > 0)`,
@@ -192,10 +232,13 @@ def FTy.isDefault : FTy → Val → Bool
   | .str, .str s => s.isEmpty
   | .nat _, .nat n => n == 0
   | .optNat _, .opt i => i.isNone
+  | .optInt _, .opt i => i.isNone
+  | .optIntZ _, .opt i => i.isNone
   | .flag _, .flag b => !b
   | .enum _, .opt i => i.isNone
   | .enumD _ d, .nat i => i == d
   | .b64, .str s => s.isEmpty
+  | .dateTime, .dt d => d.isNone
   | _, _ => true
 
 /-- values of the right shape and range -/
@@ -204,11 +247,17 @@ def FTy.canon : FTy → Val → Bool
   | .nat b, .nat n => n < 2 ^ b
   | .optNat _, .opt Option.none => true
   | .optNat b, .opt (some n) => n < 2 ^ b
+  | .optInt _, .opt Option.none => true
+  | .optInt b, .opt (some n) => n < 2 ^ b
+  | .optIntZ _, .opt Option.none => true
+  | .optIntZ b, .opt (some n) => n < 2 ^ b
   | .flag _, .flag _ => true
   | .enum _, .opt Option.none => true
   | .enum ns, .opt (some i) => i < ns.length
   | .enumD ns d, .nat i => i < ns.length || i == d
   | .b64, .str s => s.all fun c => c.toNat < 256
+  | .dateTime, .dt Option.none => true
+  | .dateTime, .dt (some d) => decide (Scalar.ValidDt d)
   | _, _ => false
 
 /-- a scalar type is usable: flag spellings non-empty, enum names non-empty and distinct -/
@@ -216,6 +265,7 @@ def FTy.wf : FTy → Bool
   | .flag ts => !ts.isEmpty && !ts.contains []
   | .enum ns => !ns.contains [] && nodupB ns
   | .enumD ns _ => !ns.contains [] && nodupB ns
+  | .optIntZ _ => false
   | _ => true
 
 /-! ## trees -/
@@ -242,6 +292,10 @@ structure Head where
   anyNs : Bool
   /-- the parser takes child elements of any name (`iterChildElements(el)` without tag) -/
   anyTag : Bool := false
+  /-- the parser finds the child by tag alone and THEN tests its namespace; a child with the right tag in
+  another namespace hides later ones and reads as absent (`el.firstChildElement("set")` followed by
+  `if (set.namespaceURI() == ns_rsm)`); only meaningful with `anyNs` on a `child` field -/
+  nsAfter : Bool := false
   deriving Repr, BEq, DecidableEq
 
 def xmlnsKey : Str := "xmlns".toList
@@ -352,7 +406,7 @@ mutual
       | some k => .opt (idxOf k.name names)
       | none => .opt none
     | .child h fs mode =>
-      match x.kids.find? (h.matches pns) with
+      match (x.kids.find? (h.matches pns)).filter (fun k => !h.nsAfter || k.nsOf pns == h.ns) with
       | some k => .record (decFs (k.nsOf pns) k fs)
       | none => if mode == .optional then .absent else .record (decFs h.ns nullNode fs)
     | .many h fs _ =>
